@@ -9,9 +9,19 @@
    * C04_sample_name_orig_refuted: the pinned _parse_sample records the name ' a' (with the space) for the line
      ' a{} 1' inside the family 'a'; exposed, that sample is written {" a"} and is rejected on the way back.  Repaired
      source (fixes/C04-om-sample-name.diff): the line is rejected.
+   * C04_implicit_family_name_orig_refuted (+ _witnesses): a sample whose name the family in progress does not allow
+     starts an implicit family of type unknown.  The pinned text_fd_to_metric_families names it
+     _unquote_unescape(sample.name) although sample.name is already unquoted and unescaped: the quoted sample name
+     ' a' gives the family a holding the sample ' a', whose exposition (# TYPE a unknown, then the quoted ' a') is
+     rejected with Clashing name.  Repaired source (fixes/C04-om-implicit-family-name.diff, flag fix_sname): the
+     family takes the sample's name as it is.
+   * C04_implicit_family_enter, C04_unknown_family_samples_named: the repaired model, for ARBITRARY oracles and every
+     setting of the other flags: the state a sample opens is named by that sample and allows exactly that name, and
+     every family of type unknown that om_parse returns holds only samples carrying the family's name
+     (C04_unknown_family_samples_named_orig_refuted: the pinned model does not have that property).
    The round trip itself (parse -> expose -> parse = id on accepted documents) is NOT proved here: it needs the
    exposition model (model/Expo.v, C04's first direction) and is checked by the direct oracle of harness/c04b.py. *)
-From V Require Import lib.PyBase lib.PyStr model.OMParser proofs.OMWitness.
+From V Require Import lib.PyBase lib.PyStr model.OMParser proofs.OMWitness proofs.OMImplicitName.
 Open Scope N_scope.
 
 Theorem C04_timestamp_exponent_orig_refuted :
@@ -36,3 +46,102 @@ Theorem C04_sample_name_orig_refuted :
   /\ toy_parse true true true true true true doc_sname = Err ValueError.
 Proof. exact (conj sname_orig sname_fixed). Qed.
 Print Assumptions C04_sample_name_orig_refuted.
+
+(* ---- the implicit unknown family is named by its sample (fixes/C04-om-implicit-family-name.diff) ----
+   fam_shape r = (family name, type, names of its samples) for every family of the parse result r;
+   toy_parse .. sname doc = om_parse with the toy oracles of proofs/OMWitness.v, the last flag being fix_sname.
+   doc_implicit_sp is the two-line document whose sample line is the quoted name ' a' in braces followed by 1. *)
+Theorem C04_implicit_family_name_orig_refuted :
+  fam_shape (toy_parse true true true true true false doc_implicit_sp) = Ok [(s2l "a", OM_unknown, [s2l " a"])]
+  /\ fam_shape (toy_parse true true true true true true doc_implicit_sp) = Ok [(s2l " a", OM_unknown, [s2l " a"])].
+Proof. exact (conj implicit_sp_orig implicit_sp_fixed). Qed.
+Print Assumptions C04_implicit_family_name_orig_refuted.
+
+(* the other shapes: a trailing space, a suffix-like name, a quoted name that itself starts and ends with a quote
+   character (the second unquoting strips them), and a quoted UTF-8 name without metadata, which the pinned source
+   rejects (no second unquoting took place, and a.b is not a legacy name) *)
+Theorem C04_implicit_family_name_witnesses :
+  (fam_shape (toy_parse true true true true true false doc_implicit_trail) = Ok [(s2l "a", OM_unknown, [s2l "a "])]
+   /\ fam_shape (toy_parse true true true true true true doc_implicit_trail) = Ok [(s2l "a ", OM_unknown, [s2l "a "])])
+  /\ (fam_shape (toy_parse true true true true true false doc_implicit_total)
+        = Ok [(s2l "a_total", OM_unknown, [s2l " a_total"])]
+      /\ fam_shape (toy_parse true true true true true true doc_implicit_total)
+        = Ok [(s2l " a_total", OM_unknown, [s2l " a_total"])])
+  /\ (fam_shape (toy_parse true true true true true false doc_implicit_quoted) = Ok [(s2l "a", OM_unknown, [s2l """a"""])]
+      /\ fam_shape (toy_parse true true true true true true doc_implicit_quoted)
+        = Ok [(s2l """a""", OM_unknown, [s2l """a"""])])
+  /\ (fam_shape (toy_parse true true true true true false doc_implicit_dotted) = Err ValueError
+      /\ fam_shape (toy_parse true true true true true true doc_implicit_dotted) = Ok [(s2l "a.b", OM_unknown, [s2l "a.b"])]).
+Proof.
+  exact (conj (conj implicit_trail_orig implicit_trail_fixed)
+        (conj (conj implicit_total_orig implicit_total_fixed)
+        (conj (conj implicit_quoted_orig implicit_quoted_fixed)
+              (conj implicit_dotted_orig implicit_dotted_fixed)))).
+Qed.
+Print Assumptions C04_implicit_family_name_witnesses.
+
+Section C04bNamed.
+  Variable legacy guard_fix fix_nhkeys fix_nhsfx fix_tsmix fix_isnan fix_unit fix_quote fix_tsexp : bool.
+  Variable NUM : Type.
+  Variable parse_num parse_float : str -> option NUM.
+  Variable parse_int : str -> option Z.
+  Variable num_lt num_eqb : NUM -> NUM -> bool.
+  Variable num_isinf num_integral num_huge : NUM -> bool.
+  Variable num_zero num_one num_inf : NUM.
+  Variable ts_float : Z -> Z -> option NUM.
+  Variable is_word is_space_re is_digit_re : char -> bool.
+
+  (* fix_sname = true throughout *)
+  Notation parse := (om_parse legacy guard_fix fix_nhkeys fix_nhsfx fix_tsmix fix_isnan fix_unit fix_quote fix_tsexp true
+                      NUM parse_num parse_float parse_int num_lt num_eqb num_isinf num_integral num_huge
+                      num_zero num_one num_inf ts_float is_word is_space_re is_digit_re).
+  Notation enter_family := (om_enter_family legacy guard_fix true NUM parse_float num_lt num_eqb num_zero num_inf).
+  Notation flush := (om_flush legacy NUM parse_float num_lt num_eqb num_zero num_inf).
+
+  (* a sample (not a native-histogram one) whose name the family in progress does not allow: the family in progress
+     is built (flush) and the new state is the empty unknown family named by the sample, allowing exactly its name *)
+  Theorem C04_implicit_family_enter : forall st (s : om_sample NUM) st' out,
+    enter_family st s false = Ok (st', out) -> mem_str (os_name s) (st_allowed st) = false ->
+    st_name st' = Some (os_name s) /\ st_allowed st' = [os_name s] /\ st_typ st' = Some OM_unknown /\
+    st_samples st' = [] /\ exists seen', flush st = Ok (out, seen') /\ st_seen st' = seen'.
+  Proof.
+    exact (enter_family_named legacy guard_fix NUM parse_float num_lt num_eqb num_zero num_inf).
+  Qed.
+
+  (* document level: whatever the document, a returned family of type unknown (opened by a sample, by metadata without
+     a TYPE line, or by `# TYPE name unknown`) holds only samples that carry the family's own name *)
+  Theorem C04_unknown_family_samples_named : forall text fams f,
+    parse text = Ok fams -> In f fams -> of_type f = OM_unknown ->
+    Forall (fun s => os_name s = of_name f) (of_samples f).
+  Proof.
+    intros text fams f H Hin.
+    exact (proj1 (Forall_forall _ _)
+             (parse_unknown_named legacy guard_fix fix_nhkeys fix_nhsfx fix_tsmix fix_isnan fix_unit fix_quote fix_tsexp
+                NUM parse_num parse_float parse_int num_lt num_eqb num_isinf num_integral num_huge
+                num_zero num_one num_inf ts_float is_word is_space_re is_digit_re text fams H) f Hin).
+  Qed.
+End C04bNamed.
+Print Assumptions C04_implicit_family_enter.
+Print Assumptions C04_unknown_family_samples_named.
+
+Definition ex_sp_sample : om_sample Z :=
+  {| os_name := s2l " a"; os_labels := Some []; os_value := Some 1%Z; os_ts := None; os_ex := None; os_nh := None |}.
+Example C04_implicit_family_enter_nonvacuous :
+  exists st' out,
+    om_enter_family false true true Z toy_float Z.ltb Z.eqb 0%Z (10 ^ 400)%Z om_st_init ex_sp_sample false = Ok (st', out)
+    /\ mem_str (os_name ex_sp_sample) (st_allowed (@om_st_init Z)) = false.
+Proof. eexists. eexists. split; vm_compute; reflexivity. Qed.
+
+Example C04_unknown_family_samples_named_nonvacuous :
+  exists fams f, toy_parse true true true true true true doc_implicit_sp = Ok fams /\ In f fams /\
+                 of_type f = OM_unknown /\ of_samples f <> [].
+Proof.
+  eexists. eexists. split; [vm_compute; reflexivity|]. split; [left; reflexivity|]. split; [reflexivity|discriminate].
+Qed.
+
+(* the pinned model (fix_sname = false) does not have the property *)
+Theorem C04_unknown_family_samples_named_orig_refuted :
+  exists fams f, toy_parse true true true true true false doc_implicit_sp = Ok fams /\ In f fams /\
+                 of_type f = OM_unknown /\ ~ Forall (fun s => os_name s = of_name f) (of_samples f).
+Proof. exact parse_unknown_named_orig_refuted. Qed.
+Print Assumptions C04_unknown_family_samples_named_orig_refuted.
